@@ -69,6 +69,9 @@ func genWrite(r *kit.Rng, k keySpec, at int64, tier string, allowBig bool) *writ
 	if w.Quota < -1 {
 		w.Quota = 0
 	}
+	if len(w.Reads) > 0 && r.Chance(1, 4) {
+		w.EndWithData = true
+	}
 	return w
 }
 
